@@ -60,7 +60,13 @@ var Types = []T{
 	{20, "error", "iface", "interface", true, false},
 	// a pointer type that implements Shape (also as a nil pointer): handed to interface parameters
 	{21, "*sqp", "(p int)", "pointer", true, false},
+	// a recursive named function type (LAST entry, not in the random pools: only payloads 0 = nil and 7 = decoy exist):
+	// a parameter `f Step` of the function returned by a curried function of Step's own shape can stand in for it
+	{22, "Step", "func", "func", true, false},
 }
+
+// PoolSize is the number of types the random pools draw from (Step is placed by hand only).
+func PoolSize() int { return len(Types) - 1 }
 
 // ErrT is a type used where an `error` is expected.
 type ErrT struct {
@@ -110,7 +116,7 @@ func (e Err) ErrCode() int  { return e.Code }
 // OKTypes are the ids for which the printed zero value is well typed today.
 func OKTypes() []int {
 	var out []int
-	for _, t := range Types {
+	for _, t := range Types[:len(Types)-1] { // without Step (placed by hand only)
 		if t.ZeroOK {
 			out = append(out, t.ID)
 		}
@@ -176,6 +182,17 @@ func zr(n int) int {
 		return 0
 	}
 	return n
+}
+
+// Step: see type 22. decoy is a Step that must never be called: it logs every entry.
+type Step func(n int) func(n int, f Step) int
+
+func decoy(n int) func(n int, f Step) int {
+	Log = append(Log, "decoy")
+	return func(m int, next Step) int {
+		Log = append(Log, "decoy")
+		return -1
+	}
 }
 
 // UnsafeP is unsafe.Pointer itself (an alias, so that the files of the package need not import unsafe).
@@ -532,6 +549,18 @@ func ob21(v *sqp) int {
 		return -1
 	}
 	return v.n
+}
+func mk22(n int) Step {
+	if n == 0 {
+		return nil
+	}
+	return decoy
+}
+func ob22(v Step) int {
+	if v == nil {
+		return 0
+	}
+	return 7
 }
 func mk16(n int) struct {
 	A int "cell:\"%5d\""
